@@ -38,6 +38,7 @@ enum LogEntry {
     Frame(u64, String, String),
     /// the remote's channel was closed by the agent
     Closed(u64), // remote, lane, kind / body
+    Gone(u64),
 }
 type Log = Arc<Mutex<Vec<LogEntry>>>;
 
@@ -114,6 +115,8 @@ enum Act {
     Settle,
     /// time passes (seconds)
     Advance(u64),
+    /// the remote goes away: it drops its end of the channel (the write task notices at its next write to it)
+    Depart(u64),
 }
 
 const NODE: &str = "/node";
@@ -146,6 +149,7 @@ async fn run_case(acts: &[Act], nremotes: u64, stop_delay: usize, prune_secs: u6
     let mut keep: Vec<(ByteWriter, promise::Receiver<swimos_runtime::agent::DisconnectionReason>)> = vec![];
     let _ = &mut keep;
     let mut completions = vec![];
+    let mut reader_tasks: Vec<Option<tokio::task::JoinHandle<()>>> = vec![];
     for r in 1..=nremotes {
         let (w, reader) = byte_channel(non_zero_usize!(65536));
         let (done_tx, done_rx) = promise::promise();
@@ -154,7 +158,7 @@ async fn run_case(acts: &[Act], nremotes: u64, stop_delay: usize, prune_secs: u6
             return (vec![], Some("the write task ended before a remote could be attached".into()));
         }
         let log = log.clone();
-        tokio::spawn(async move {
+        let reader_task = tokio::spawn(async move {
             let mut reader = FramedRead::new(reader, RawResponseMessageDecoder);
             while let Some(Ok(msg)) = reader.next().await {
                 let lane = msg.path.lane.as_str().to_string();
@@ -168,6 +172,7 @@ async fn run_case(acts: &[Act], nremotes: u64, stop_delay: usize, prune_secs: u6
             }
             log.lock().push(LogEntry::Closed(r));
         });
+        reader_tasks.push(Some(reader_task));
     }
     settle().await;
     let mut current_v = 0i64;
@@ -232,6 +237,15 @@ async fn run_case(acts: &[Act], nremotes: u64, stop_delay: usize, prune_secs: u6
             Act::Settle => {}
             Act::Advance(secs) => {
                 tokio::time::advance(Duration::from_secs(*secs)).await;
+            }
+            Act::Depart(r) => {
+                if let Some(t) = reader_tasks.get_mut(*r as usize - 1).and_then(|t| t.take()) {
+                    // everything that has arrived is read first; then the remote's end is dropped
+                    settle().await;
+                    t.abort();
+                    let _ = t.await;
+                    log.lock().push(LogEntry::Gone(*r));
+                }
             }
         }
         settle().await;
@@ -300,6 +314,7 @@ fn coq_entry(e: &LogEntry) -> Option<String> {
         LogEntry::Remove(n, k) => format!("LMap {} (MRemove {})", item_index(n), zi(parse_i(k)?)),
         LogEntry::Clear(n) => format!("LMap {} MClear", item_index(n)),
         LogEntry::Closed(r) => format!("LClosed {}", r),
+        LogEntry::Gone(r) => format!("LGone {}", r),
         LogEntry::Frame(r, lane, kind) => {
             if let Some(b) = kind.strip_prefix("event ") {
                 if lane == "m" {
@@ -407,6 +422,10 @@ fn main() {
     emit(vec![Act::Link(1, "v"), Act::Unlink(1, "v"), Act::Advance(7), Act::Link(1, "v"), Act::Advance(21), Act::Event("v", 5), Act::Settle], 1, 1, 20, &mut w, &mut failures);
     emit(vec![Act::Link(1, "v"), Act::Link(2, "v"), Act::Unlink(1, "v"), Act::Advance(21), Act::Event("v", 5), Act::Settle], 2, 1, 20, &mut w, &mut failures);
 
+    // one remote has gone away unnoticed, another holds two links, and the agent stops
+    emit(vec![Act::Link(1, "v"), Act::Link(1, "m"), Act::Link(2, "v"), Act::Settle, Act::Depart(2), Act::Stop, Act::Settle], 2, 1, 3600, &mut w, &mut failures);
+    emit(vec![Act::Link(1, "v"), Act::Link(1, "m"), Act::Link(1, "t"), Act::Link(2, "m"), Act::Event("m", 4), Act::Depart(2), Act::Event("v", 7), Act::Stop], 2, 0, 3600, &mut w, &mut failures);
+
     for _ in 0..args.cases {
         let nrem = rng.range(1, 3);
         let mut acts = vec![];
@@ -438,6 +457,7 @@ fn main() {
                 17 => Act::OthersRescind,
                 18 => Act::Stop,
                 19 if prune_secs < 3600 => Act::Advance(*rng.pick(&[7u64, 13, 21])),
+                20 if nrem > 1 => Act::Depart(r),
                 _ => if prune_secs < 3600 && rng.below(2) == 0 { Act::Advance(*rng.pick(&[7u64, 13])) } else { Act::Settle },
             });
         }
